@@ -145,8 +145,9 @@ def run(verbose=False, seed=7, per_fn=40):
             targets.append((key, pt, _Remote(scratch, key)))
         rng = random.Random(seed)
         for key, ptypes, fn in targets:
-            ckey = key + '#xcheck'
-            REG.contracts[ckey] = Contract(ckey, params=ptypes, props=['X'], modifies=[])
+            ckey = key
+            saved = REG.contracts.get(ckey)
+            REG.contracts[ckey] = Contract(ckey, params=ptypes, props=['X'], modifies=[], locals={'d': 'dict[int,int]'})
             try:
                 rep = verify.verify_function(prog, REG, ckey, pruning=False)
             except Exception as ex:
@@ -154,6 +155,8 @@ def run(verbose=False, seed=7, per_fn=40):
                 continue
             finally:
                 REG.contracts.pop(ckey, None)
+                if saved is not None:
+                    REG.contracts[ckey] = saved
             if rep.error:
                 res['skipped'].append(f'{key}: {rep.error}')
                 continue
